@@ -128,6 +128,7 @@ def cases(tier):
         for style in ("header", "ansi"):
             srcs.append(("base", list(order), style))
             srcs.append(("base", list(order), style, True))   # net types, defparam, `timescale in the source
+            srcs.append(("base", list(order), style, "late"))  # ... and nets declared after their use
     for depth in (3, 4):
         for order in itertools.permutations(range(depth)):
             srcs.append(("chain", list(order)))
